@@ -298,7 +298,7 @@ _add("C05", "Session 5 (iterator): HpxToUniqIter is transliterated (Model/UniqIt
             "nuniq_iter_maximal (nothing emitted below the top level has its parent inside the MOC) — pass_sound / pass_complete, noBlk_after_pass, block_nest, removed_block, transfer; and emitted_iff_cell: an aligned cell is emitted by the iterator iff it is a cell of the cell view (maximal_unique: one family of maximal aligned cells per covered set). Tie: values of the real iterator = values of this model (r_nuniq_it) = NUNIQ numbers of the normal-form cells (r_nuniq).")
 _add("C19", "Session 5 (dates): the tool's ISO date conversion is modelled (Model/Calendar.lean: calendar2f / gregorian2jd as written, hms2usec, check_usec) and proved to count days: iso_day_count (every Gregorian date to the next one is +1 Julian day — ends of months, 28 / 29 February through the 400-year cycle, century years — anchored on 2000-01-01 = JD 2451545), "
             "iso_next_day_usec (+86 400 000 000 us); tie: random civil dates 1583..2400 with fractions of a second through `moc from timestamp --time-type isorfc|isosimple` = the model (cli_from_iso).")
-_add("C17", "Session 5: hole filling is modelled (Model/FillHoles.lean: components of the complement over the edge-or-vertex adjacency, stably sorted by decreasing size, all but the 1 + n largest added) with fill_holes_spec, fill_holes_largest_kept, fill_holes_superset, and tied exactly to the real fill_holes(None | Some(1)) (op sp_fill; equal-size components across the cut skipped); "
+_add("C17", "Session 5: hole filling is modelled (Model/FillHoles.lean: components of the complement over the edge-or-vertex adjacency, stably sorted by decreasing size, all but the 1 + n largest added) with fill_holes_spec, fill_holes_largest_kept, fill_holes_superset, and tied exactly to the real fill_holes(None | Some(1)) (op sp_fill; equal-size components across the cut skipped); fill_holes_smaller_than likewise (fillHolesSmaller, fill_holes_smaller_spec, op sp_fillk); "
             "the space operations are also driven on u32 and u16 MOCs (seed C17e).")
 _add("C09", "Session 5: `FixedDepthSTMocBuilder::buff_to_moc` is transliterated (Model/STBuilder.lean: one group of sorted space cells per time cell, consecutive time cells with the same coverage grouped) and proved: buffer_elements_exact (the elements cover a pair iff it was pushed, for every order / duplication / size), buffer_elements_canonical, buffer_elements_order_independent; "
             "tie: the ELEMENTS the real builder returns for one buffer = the model's (op st_buff). The merge of successive buffers still goes through the streaming union (specification level).")
